@@ -22,6 +22,7 @@ def segOk (f : String) : List Approval → List Ev → Prop
   | apps, .fs fn w p :: rest => safe p = true ∧ apps.any (okBy fn w p) = true ∧ segOk f apps rest
   | apps, .note _ :: rest => segOk f apps rest
   | apps, .nest g _ _ inner :: rest => judgeNest g inner = [] ∧ segOk f apps rest
+  | apps, .edsave _ name :: rest => f = "ed" ∧ segOk f (⟨true, stripOneSlash name⟩ :: apps) rest
   | _, _ :: _ => False
 
 theorem fold_ok (f : String) (hf : compileCalls.contains f = false) :
@@ -66,6 +67,11 @@ theorem fold_ok (f : String) (hf : compileCalls.contains f = false) :
       have hstep : judgeStep s (.nest g w' a' inner) = s := by simp [judgeStep, h1]
       rw [hstep]
       exact ih s hb he hw h2
+    | edsave st' name =>
+      obtain ⟨h1, h2⟩ := hs
+      subst h1
+      exact ih _ (by simp [judgeStep, he, hb]) (by simp [judgeStep, he]) (by simp [judgeStep, he, hw])
+        (by simpa [judgeStep, he] using h2)
     | lp _ _ => exact absurd hs (by simp [segOk])
     | il _ _ => exact absurd hs (by simp [segOk])
     | cvp _ _ _ => exact absurd hs (by simp [segOk])
@@ -136,6 +142,12 @@ theorem segOk_mono (f : String) : ∀ (evs : List Ev) (apps apps' : List Approva
       exact ⟨a, hsub a ha, hk⟩
     | note n => exact ih _ _ hsub h
     | nest g w' a' inner => exact ⟨h.1, ih _ _ hsub h.2⟩
+    | edsave st' name =>
+      refine ⟨h.1, ih _ _ ?_ h.2⟩
+      intro a ha
+      rcases List.mem_cons.mp ha with ha | ha
+      · exact List.mem_cons.mpr (Or.inl ha)
+      · exact List.mem_cons.mpr (Or.inr (hsub a ha))
     | lp _ _ => exact absurd h (by simp [segOk])
     | il _ _ => exact absurd h (by simp [segOk])
     | cvp _ _ _ => exact absurd h (by simp [segOk])
@@ -148,6 +160,7 @@ theorem segOk_mono (f : String) : ∀ (evs : List Ev) (apps apps' : List Approva
 def appsAfter : List Approval → List Ev → List Approval
   | apps, [] => apps
   | apps, .valid w path _ _ v :: rest => appsAfter ((approvalOf w v path).toList ++ apps) rest
+  | apps, .edsave _ name :: rest => appsAfter (⟨true, stripOneSlash name⟩ :: apps) rest
   | apps, _ :: rest => appsAfter apps rest
 
 theorem segOk_append (f : String) : ∀ (e1 e2 : List Ev) (apps : List Approval),
@@ -166,6 +179,7 @@ theorem segOk_append (f : String) : ∀ (e1 e2 : List Ev) (apps : List Approval)
       exact ⟨a, b, ih e2 _ c h2⟩
     | note n => exact ih e2 _ h1 h2
     | nest g w' a' inner => exact ⟨h1.1, ih e2 _ h1.2 h2⟩
+    | edsave st' name => exact ⟨h1.1, ih e2 _ h1.2 h2⟩
     | lp _ _ => exact absurd h1 (by simp [segOk])
     | il _ _ => exact absurd h1 (by simp [segOk])
     | cvp _ _ _ => exact absurd h1 (by simp [segOk])
@@ -553,6 +567,7 @@ theorem segOk_prefix (f : String) : ∀ (e1 e2 : List Ev) (apps : List Approval)
     | fs fn w p => obtain ⟨a, b, c⟩ := h; exact ⟨a, b, ih e2 _ c⟩
     | note n => exact ih e2 _ h
     | nest g w' a' inner => exact ⟨h.1, ih e2 _ h.2⟩
+    | edsave st' name => exact ⟨h.1, ih e2 _ h.2⟩
     | lp _ _ => exact absurd h (by simp [segOk])
     | il _ _ => exact absurd h (by simp [segOk])
     | cvp _ _ _ => exact absurd h (by simp [segOk])
@@ -581,8 +596,18 @@ theorem segOk_getfnIo (f : String) (pol : Policy) (st : EdSt) (w io : Bool) (arg
       · rw [h]; exact base
 
 theorem segOk_edStep (f : String) (pol : Policy) (ex : List CStr) (st : EdSt) (c : EdCmd) (apps : List Approval)
-    (hop : opOk f "ed_start" = true) : segOk f apps (edStep pol ex st c).1 := by
+    (hf : f = "ed") (hop : opOk f "ed_start" = true) : segOk f apps (edStep pol ex st c).1 := by
   cases c with
+  | D name =>
+    simp only [edStep, segOk]
+    refine ⟨hf, ?_⟩
+    split
+    · rename_i hl
+      have hs : safe (stripOneSlash name) = true := legal_path_safe _ hl
+      have hl' : specLegal (stripOneSlash name) = true := by rw [← legalPath_eq_spec]; exact hl
+      simp only [segOk, hs, true_and, and_true]
+      exact any_okBy _ _ _ _ ⟨true, stripOneSlash name⟩ (by simp) hl' (covers_self _ _) (by simp)
+    · trivial
   | start file => exact segOk_askIo f pol false true file apps hop
   | a t => simp [edStep, segOk]
   | e arg =>
@@ -637,7 +662,7 @@ theorem efun_segOk (pol : Policy) (ex : List CStr) (efun : String) (a b : CStr) 
   · exact segOk_rename _ _ _ _ _ _ _ (by decide) (by decide)
   · exact segOk_cp _ _ _ _ _ _ (by decide)
   · exact segOk_save _ _ _ _ _ (by decide)
-  · exact segOk_edStep _ _ _ _ _ _ (by decide)
+  · exact segOk_edStep _ _ _ _ _ _ rfl (by decide)
   · exact segOk_getDir _ _ _ _ _ _ (by decide)
   · exact segOk_stat _ _ _ _ _ _ (by decide)
 
@@ -653,17 +678,17 @@ theorem model_satisfies_spec (pol : Policy) (ex : List CStr) (efun : String) (ar
 /-! ### a master without valid_read / valid_write -/
 
 theorem fold_absent (f : String) : ∀ (evs : List Ev) (apps : List Approval) (s : JState),
-    s.absent = true → segOk f apps evs →
-    (evs.filter (fun e => !e.isValid)).foldl judgeStep s = s := by
+    s.absent = true → s.efun = f → segOk f apps evs →
+    ∃ apps', (evs.filter (fun e => !e.isValid)).foldl judgeStep s = { s with approvals := apps' } := by
   intro evs
   induction evs with
-  | nil => intro _ s _ _; rfl
+  | nil => intro _ s _ _ _; exact ⟨s.approvals, rfl⟩
   | cons e rest ih =>
-    intro apps s ha hs
+    intro apps s ha he hs
     cases e with
     | valid w path who op v =>
       obtain ⟨_, _, h3⟩ := hs
-      simpa [Ev.isValid] using ih _ s ha h3
+      simpa [Ev.isValid] using ih _ s ha he h3
     | fs fn w p =>
       obtain ⟨h1, _, h3⟩ := hs
       have hna : absolute p = false := by
@@ -671,14 +696,22 @@ theorem fold_absent (f : String) : ∀ (evs : List Ev) (apps : List Approval) (s
       have hstep : judgeStep s (.fs fn w p) = s := by
         simp [judgeStep, hna, h1, ha]
       simp only [Ev.isValid, Bool.not_false, List.filter_cons_of_pos, List.foldl_cons, hstep]
-      exact ih apps s ha h3
+      exact ih apps s ha he h3
     | note n =>
       simp only [Ev.isValid, Bool.not_false, List.filter_cons_of_pos, List.foldl_cons]
-      exact ih apps s ha hs
+      exact ih apps s ha he hs
     | nest g w' a' inner =>
       have hstep : judgeStep s (.nest g w' a' inner) = s := by simp [judgeStep, hs.1]
       simp only [Ev.isValid, Bool.not_false, List.filter_cons_of_pos, List.foldl_cons, hstep]
-      exact ih apps s ha hs.2
+      exact ih apps s ha he hs.2
+    | edsave st' name =>
+      obtain ⟨h1, h2⟩ := hs
+      subst h1
+      have hstep : judgeStep s (.edsave st' name) = { s with approvals := ⟨true, stripOneSlash name⟩ :: s.approvals } := by
+        simp [judgeStep, he]
+      rw [List.filter_cons_of_pos (by rfl), List.foldl_cons, hstep]
+      obtain ⟨apps', h⟩ := ih _ { s with approvals := ⟨true, stripOneSlash name⟩ :: s.approvals } ha he h2
+      exact ⟨apps', by rw [h]⟩
     | lp _ _ => exact absurd hs (by simp [segOk])
     | il _ _ => exact absurd hs (by simp [segOk])
     | cvp _ _ _ => exact absurd hs (by simp [segOk])
@@ -695,7 +728,7 @@ theorem model_satisfies_spec_absent (pol : Policy) (ex : List CStr) (efun : Stri
     judgeEv (.mode true :: .call efun whoObj args :: sysEvents true pol ex efun a b) = [] := by
   unfold judgeEv sysEvents
   simp only [↓reduceIte, List.foldl_cons]
-  have := fold_absent efun _ [] (judgeStep (judgeStep {} (.mode true)) (.call efun whoObj args)) rfl
+  obtain ⟨apps', this⟩ := fold_absent efun _ [] (judgeStep (judgeStep {} (.mode true)) (.call efun whoObj args)) rfl rfl
     (efun_segOk .allow ex efun a b h)
   rw [this]; rfl
 
@@ -720,7 +753,7 @@ theorem fold_session (pol : Policy) (ex : List CStr) : ∀ (cmds : List EdCmd) (
       rw [List.cons_append, List.foldl_cons, List.foldl_append]
       apply ih
       exact fold_ok "ed" (by decide) _ (judgeStep s (.call "ed" whoObj c.callArgs)) (by simpa [judgeStep] using hb)
-        rfl rfl (segOk_edStep "ed" pol ex st c [] (by decide))
+        rfl rfl (segOk_edStep "ed" pol ex st c [] rfl (by decide))
     · simp only [hr, Bool.false_eq_true, ↓reduceIte]; exact ih st s hb
 
 /-- **model_satisfies_spec for editing sessions**: for every sequence of editor commands (ed (file), text input,
@@ -745,7 +778,9 @@ theorem fold_session_absent (ex : List CStr) : ∀ (cmds : List EdCmd) (st : EdS
     by_cases hr : edRuns st c = true
     · simp only [hr, ↓reduceIte]
       rw [List.cons_append, List.filter_cons_of_pos (by rfl), List.filter_append, List.foldl_cons, List.foldl_append]
-      rw [fold_absent "ed" _ [] _ (by simpa [judgeStep] using ha) (segOk_edStep "ed" .allow ex st c [] (by decide))]
+      obtain ⟨apps', hfa⟩ := fold_absent "ed" _ [] (judgeStep s (.call "ed" whoObj c.callArgs))
+        (by simpa [judgeStep] using ha) rfl (segOk_edStep "ed" .allow ex st c [] rfl (by decide))
+      rw [hfa]
       exact ih _ _ (by simpa [judgeStep] using hb) (by simpa [judgeStep] using ha)
     · simp only [hr, Bool.false_eq_true, ↓reduceIte]; exact ih st s hb ha
 
